@@ -333,13 +333,13 @@ func cmdStress(args []string) {
 	}
 	// ---- baselines: the same request alone on a fresh root (twice: a request whose own
 	// response is not deterministic cannot be compared and is dropped, counted)
-	type base struct{ canon [lb.NumBindings]string }
+	type base struct{ canon [lb.NumRootKinds]string }
 	bases := map[string]*base{}
 	var usable []*lb.Request
 	for _, r := range pool {
 		b := &base{}
 		ok, panics := true, false
-		for bm := 0; bm < lb.NumBindings; bm++ {
+		for bm := 0; bm < lb.NumRootKinds; bm++ {
 			var c [2]string
 			for k := 0; k < 2; k++ {
 				root, err := lb.NewExecRoot(&u, bm)
@@ -403,8 +403,8 @@ func cmdStress(args []string) {
 					programs = append(programs, []*lb.Request{lazyRequest(ex, ex.Uni.ReqSeq[rng.Intn(len(ex.Uni.ReqSeq))])})
 				}
 			} else {
-				bm = (it - it/3) % lb.NumBindings
-				where = "uexec/" + lb.BindingNames[bm]
+				bm = (it - it/3) % lb.NumRootKinds
+				where = "uexec/" + lb.RootKindNames[bm]
 				root, err = lb.NewExecRoot(&u, bm)
 				// a few distinct requests, each sent by several goroutines: same first use raced by many
 				distinct := 1 + rng.Intn(minInt(n, 6))
